@@ -9,6 +9,7 @@ import (
 	"path/filepath"
 	"runtime/debug"
 	"runtime/pprof"
+	"strconv"
 	"strings"
 	"time"
 
@@ -62,6 +63,7 @@ func run(args []string) {
 	nomerge := fs.Bool("nomerge", false, "do not merge states (debugging)")
 	nofeas := fs.Bool("nofeas", false, "skip feasibility checks at forks")
 	unwind := fs.Int("unwind", 300, "loop unwinding bound per frame")
+	boundsFlag := fs.String("bounds", "", "harness size parameters k=v,k=v overriding the vrt.Bound defaults")
 	progress := fs.Bool("progress", false, "print progress lines")
 	cpuprof := fs.String("cpuprofile", "", "write CPU profile")
 	smtlog := fs.String("smtlog", "", "log solver dialogue to file")
@@ -122,6 +124,17 @@ func run(args []string) {
 			e.MergeFull = *mergefull
 			e.FeasCheck = !*nofeas
 			e.Unwind = *unwind
+			e.Bounds = map[string]int{}
+			for _, kv := range strings.Split(*boundsFlag, ",") {
+				if k, v, ok := strings.Cut(kv, "="); ok {
+					n, err := strconv.Atoi(v)
+					if err != nil {
+						fmt.Fprintln(os.Stderr, "bad --bounds entry", kv)
+						os.Exit(3)
+					}
+					e.Bounds[k] = n
+				}
+			}
 			e.WitnessWanted = true
 			e.Progress = *progress
 		e.RepoRoot = strings.TrimRight(*repo, "/")
